@@ -20,7 +20,7 @@ import traceback
 from . import corpus, pool
 
 VERIF = os.path.dirname(os.path.dirname(os.path.abspath(__file__)))
-STEP_CAP = 6_000_000
+STEP_CAP = 6_000_000            # per run, and at least 4 M per thread of the plan (deep texts are slow)
 SWITCH_TIMEOUT = 120
 
 
@@ -86,6 +86,9 @@ def op_outcome(op):
         raise ValueError('unknown op %r' % (k,))
     except _Abort:
         raise
+    except RecursionError:
+        # where exactly the limit is hit (and with it the message) depends on a frame more or less
+        return ('exc', 'RecursionError', '')
     except BaseException as e:
         return ('exc', type(e).__name__, str(e)[:200])
 
@@ -158,6 +161,62 @@ def _custom_config():
 # ---------------------------------------------------------------------------
 # scheduler (child C)
 # ---------------------------------------------------------------------------
+# When the traced code sits at the recursion limit, the call of the trace function itself raises
+# RecursionError; CPython then switches tracing off for that thread.  The thread would run the rest of
+# its calls as one atomic step.  A sys.monitoring PY_UNWIND callback (fires only while an exception
+# unwinds a frame) switches tracing on again.
+_REARM = {'sched': None, 'count': 0, 'installed': False}
+
+
+def _on_unwind(code, offset, exc):
+    s = _REARM['sched']
+    if s is not None and sys.gettrace() is None and getattr(threading.current_thread(), '_verif_traced', False):
+        sys.settrace(s.global_trace)
+        _REARM['count'] += 1
+
+
+def _install_rearm(sched):
+    _REARM['sched'] = sched
+    if not _REARM['installed']:
+        mon = sys.monitoring
+        try:
+            mon.use_tool_id(3, 'verif-rearm-trace')
+        except ValueError:
+            pass
+        mon.register_callback(3, mon.events.PY_UNWIND, _on_unwind)
+        mon.set_events(3, mon.events.PY_UNWIND)
+        _REARM['installed'] = True
+
+
+def _nest(n):
+    return _nest(n - 1) if n else 0
+
+
+def _parso_locks():
+    """Lock objects owned by parso (module globals, class attributes).  A thread that holds one is not
+    parked: the thread that gets the baton could block on it for good (every other thread waits for
+    its own baton).  Regions protected by a lock of parso's are therefore atomic in the simulation."""
+    import _thread
+    lock_types = (_thread.LockType, _thread.RLock)
+    found = []
+    for name, mod in sorted(sys.modules.items()):
+        if not (name == 'parso' or name.startswith('parso.')) or mod is None:
+            continue
+        for v in list(vars(mod).values()):
+            if isinstance(v, lock_types):
+                found.append(v)
+            elif isinstance(v, type) and getattr(v, '__module__', '') == name:
+                found.extend(x for x in vars(v).values() if isinstance(x, lock_types))
+    return found
+
+
+def _held(lock):
+    try:
+        return lock.locked()
+    except AttributeError:
+        return lock._is_owned()
+
+
 class Scheduler:
     def __init__(self, plan, generate, seed):
         self.plan = plan
@@ -191,6 +250,10 @@ class Scheduler:
         self.base, self.pgen = _parso_dirs()
         self._traced = {}
         self.step_cap_hit = False
+        self.step_cap = max(STEP_CAP, 4_000_000 * self.nthreads)
+        self.deferred = 0
+        self.deferred_lock = 0
+        self.locks = _parso_locks()
         self.probe = None                # called as probe(step, frame) at every counted line (profiling runs)
 
     # -- schedule tape
@@ -254,7 +317,7 @@ class Scheduler:
             if self.atomic[me]:
                 return self.local_trace
             self.steps += 1
-            if self.steps > STEP_CAP:
+            if self.steps > self.step_cap:
                 self.step_cap_hit = True
                 raise _Abort('step cap')
             self.left -= 1
@@ -271,6 +334,20 @@ class Scheduler:
                         self.switches[self.spos - 1][0] -= self.left      # the quantum ends here
                         self.left = 0
             if self.left <= 0:
+                # a hand-off needs a dozen frames of its own; right below the recursion limit it is put off
+                # by a line (an exception between releasing the next thread and blocking would leave two
+                # threads running)
+                try:
+                    _nest(14)
+                except RecursionError:
+                    self.left = 1
+                    self.deferred += 1
+                    return self.local_trace
+                for lock in self.locks:
+                    if _held(lock):
+                        self.left = 1            # not while it holds one of parso's locks
+                        self.deferred_lock += 1
+                        return self.local_trace
                 self._switch(me)
         return self.local_trace
 
@@ -298,6 +375,7 @@ class Scheduler:
     def _body(self, tid):
         if not self.sems[tid].acquire(timeout=SWITCH_TIMEOUT):
             return
+        threading.current_thread()._verif_traced = True
         sys.settrace(self.global_trace)
         try:
             ops = self.plan['threads'][tid]
@@ -307,6 +385,8 @@ class Scheduler:
                 order = [j for j in perm if j < len(ops)] + [j for j in order if j not in perm]
             for j in order:
                 op = ops[j]
+                if sys.gettrace() is None:
+                    sys.settrace(self.global_trace)
                 self.in_op[tid] = True
                 out = op_outcome(op)
                 self.in_op[tid] = False
@@ -316,6 +396,7 @@ class Scheduler:
         except BaseException as e:
             self.error = 'harness: %r %s' % (e, traceback.format_exc()[-800:])
         finally:
+            threading.current_thread()._verif_traced = False
             sys.settrace(None)
             self.in_op[tid] = False
             self.alive.remove(tid)
@@ -329,6 +410,7 @@ class Scheduler:
                 self.done.release()
 
     def run(self):
+        _install_rearm(self)
         threads = [threading.Thread(target=self._body, args=(i,), daemon=True) for i in range(self.nthreads)]
         for t in threads:
             t.start()
@@ -356,20 +438,44 @@ def _warm(plan):
 FIRST_USE_MODULES = ('parso.grammar', 'parso.python.tokenize')
 
 
+DEFAULT_RECURSION_LIMIT = 1000
+
+
+def _in_thread(fn):
+    """The reference executes its calls in a thread of their own, like the scheduled execution does:
+    both start from the same stack depth (matters for code nested deeply enough to hit the limit)."""
+    box = []
+
+    def body():
+        try:
+            box.append(('ok', fn()))
+        except BaseException as e:       # noqa
+            box.append(('err', e))
+    t = threading.Thread(target=body)
+    t.start()
+    t.join()
+    if box[0][0] == 'err':
+        raise box[0][1]
+    return box[0][1]
+
+
 def child_reference(plan):
     from . import fingerprint
+    sys.setrecursionlimit(DEFAULT_RECURSION_LIMIT)
     _warm(plan)
     fp0 = fingerprint.fingerprint(True)
     sh0 = fingerprint.shallow_state()
     out = {}
     order = [(t, j) for t in range(len(plan['threads'])) for j in range(len(plan['threads'][t]))]
-    for (t, j) in order:
-        out['%d.%d' % (t, j)] = op_outcome(plan['threads'][t][j])
+
+    def run_all(o):
+        for (t, j) in order:
+            o['%d.%d' % (t, j)] = op_outcome(plan['threads'][t][j])
+    _in_thread(lambda: run_all(out))
     fp1 = fingerprint.fingerprint(True)
     sh1 = fingerprint.shallow_state()
     out2 = {}
-    for (t, j) in order:
-        out2['%d.%d' % (t, j)] = op_outcome(plan['threads'][t][j])
+    _in_thread(lambda: run_all(out2))
     fp2 = fingerprint.fingerprint(True)
     shallow_changed = sorted(k for k in sh1 if sh0.get(k) != sh1[k])
     return {'outcomes': out, 'outcomes2': out2, 'fp0': fp0, 'fp1': fp1, 'fp2': fp2,
@@ -381,6 +487,7 @@ def child_concurrent(plan, generate, seed):
     warm), then `rounds - 1` more schedules of the same calls in the same process (each with its own
     switch list `more[i]`).  Every round's outcomes are compared with the sequential reference."""
     from . import fingerprint
+    sys.setrecursionlimit(DEFAULT_RECURSION_LIMIT)
     _warm(plan)
     s = Scheduler(plan, generate, seed).run()
     out = {'outcomes': {'%d.%d' % k: v for k, v in s.outcomes.items()}, 'error': s.error,
@@ -415,6 +522,8 @@ def _in_child(fn, *a):
     if pid == 0:
         try:
             os.close(r)
+            # (generators finalised while a RecursionError unwinds report "Exception ignored in ...")
+            sys.unraisablehook = lambda *args: None
             try:
                 res = ('ok', fn(*a))
             except BaseException as e:
@@ -463,8 +572,28 @@ STATEFUL_TEXTS = [
 ]
 
 
+def _deep_blocks(d):
+    kinds = ['if x%d:', 'for i%d in y:', 'while z%d:', 'with w%d:', 'def f%d():', 'class C%d:', 'async def g%d():']
+    out = []
+    for i in range(d):
+        k = kinds[i % len(kinds)]
+        out.append(' ' * i + (k % i if '%d' in k else k) + '\n')
+    out.append(' ' * d + 'x = (y := 1)\n')
+    return ''.join(out)
+
+
+# Far beyond what the default recursion limit lets the (recursive) issue listing walk, while the
+# (iterative) parser copes: whatever such a call does about RecursionError, it does it in every thread.
+DEEP_TEXTS = [
+    _deep_blocks(185),              # needs about 1200 frames: beyond the default limit, but below the ~1490 that traced code can reach
+    'x = ' + '(' * 390 + '1' + ')' * 390 + '\nf(a=1, a=2)\n',
+]
+
+
 def _text(rng):
     r = rng.random()
+    if r < 0.03:
+        return rng.choice(DEEP_TEXTS)
     if r < 0.35:
         return rng.choice(STATEFUL_TEXTS)
     if r < 0.55:
@@ -484,7 +613,7 @@ def make_sweep_plan(seed, idx):
     the very same call (kind x text x version in enumeration order), creeping forward in near
     lockstep for the whole run."""
     rng = random.Random('C18-sweep/%d' % seed)
-    texts = STATEFUL_TEXTS + corpus.SNIPPETS
+    texts = DEEP_TEXTS + STATEFUL_TEXTS + corpus.SNIPPETS
     kind = SWEEP_KINDS[idx % len(SWEEP_KINDS)]
     k = idx // len(SWEEP_KINDS)
     text = texts[k % len(texts)]
@@ -561,6 +690,7 @@ def child_profile(plan):
     """Each op of thread 0 executed alone under the scheduler's own step counting, with the write
     tracker as probe: where (at which traced line) does this call write to process-wide state?"""
     from . import writes
+    sys.setrecursionlimit(DEFAULT_RECURSION_LIMIT)
     _warm(plan)
     res = []
     for op in plan['threads'][0]:
@@ -646,11 +776,13 @@ def make_scan_plan(seed, idx, tier='quick'):
     mode = idx % 3
     cold = mode == 2
     if mode == 0:
-        chunks = scan_chunks()
+        # (text, call kinds): the two deep texts on their own (issue listing only: the PEP 8 normalizer
+        # needs millions of lines for them), then the chunks of the corpus under every kind
+        items = [(t, ['errors']) for t in DEEP_TEXTS] + [(t, SYS_KINDS) for t in scan_chunks()]
         n = idx // 3
-        version = SYS_VERSIONS[(n // len(chunks)) % len(SYS_VERSIONS)]
-        text = chunks[n % len(chunks)]
-        ops = [{'k': k, 'v': version, 'text': text} for k in SYS_KINDS]
+        version = SYS_VERSIONS[(n // len(items)) % len(SYS_VERSIONS)]
+        text, kinds = items[n % len(items)]
+        ops = [{'k': k, 'v': version, 'text': text} for k in kinds]
     else:
         version = corpus.VERSIONS[idx % len(corpus.VERSIONS)] if rng.random() < 0.7 else rng.choice(corpus.VERSIONS)
         nops = 1 if cold else rng.choice([3, 4, 6])
@@ -832,17 +964,18 @@ def evaluate(plan, generate, seed, reference=None):
     if v is None:
         # First-use memoisation is allowed: a global or class attribute that goes from None to a value,
         # a table that only gains entries.  A value that is replaced, or a container that loses or
-        # alters elements, was modified by the calls.  A module whose deep fingerprint changed without
-        # any change of that shape among its named globals / class attributes is reported too, unless it
-        # is one of the two modules that hold the loaded grammars and the token collections.
+        # alters elements, was modified by the calls.  A deep fingerprint that changed (outside the two
+        # modules that hold the loaded grammars and the token collections) without any change among the
+        # named globals / class attributes of any module is reported too.
         if r['destructive']:
             keys = [k for k, _ in r['destructive']]
             v = {'clause': 'state-modified-by-calls', 'sig': 'state-modified-by-calls:' + ','.join(keys)[:80],
                  'detail': 'the calls modified shared state beyond first-use memoisation: %s' % (r['destructive'][:6],)}
         else:
-            changed = sorted(k for k in r['fp1'] if r['fp0'].get(k) != r['fp1'][k] and k not in FIRST_USE_MODULES
-                             and not any(x.startswith(k + '.') for x in r['shallow_changed']))
-            if changed:
+            # (the deep fingerprint of a module covers the classes it refers to, wherever they are
+            # defined: a named change anywhere explains deep changes everywhere)
+            changed = sorted(k for k in r['fp1'] if r['fp0'].get(k) != r['fp1'][k] and k not in FIRST_USE_MODULES)
+            if changed and not r['shallow_changed']:
                 v = {'clause': 'state-modified-by-calls', 'sig': 'state-modified-by-calls:' + ','.join(changed)[:80],
                      'detail': 'the calls changed shared state of %s (not explained by first-use memoisation of a named '
                                'global or class attribute)' % (changed,)}
